@@ -100,8 +100,10 @@ def zoo_roundtrip(ctx, n):
 
 
 def zoo_tags(obj):
-    """F13 in the zoo: Holder.note / Holder.notes are nillable str elements."""
+    """F13 in the zoo: Holder.note / Holder.notes / ReqNil.req are nillable str elements."""
     def has_empty_nillable(o):
+        if isinstance(o, zoo.ReqNil):
+            return o.req == ""
         if isinstance(o, zoo.Holder):
             return o.note == "" or "" in o.notes
         if isinstance(o, zoo.Order):
